@@ -55,9 +55,10 @@ theorem duplicate_dow_doy (ty : Ty) (now : Clock) (st : St) :
     · simp only [parseField, perr, h]; split <;> rfl
   · intro h; simp only [parseField, perr, h]; split <;> rfl
 
-/-- `HH24` after a meridian indicator, and a meridian indicator after `HH24`, are errors. -/
+/-- `HH24` after a meridian indicator (written, or left out at the end of the text – fix of D12), and a meridian
+    indicator after `HH24`, are errors. -/
 theorem hour24_precludes_meridian (ty : Ty) (now : Clock) (st : St) :
-    (st.dt.ampm.isSome = true → parseField ty now st .Hour24 = .error .ParseError) ∧
+    (st.isAmPmSet = true → parseField ty now st .Hour24 = .error .ParseError) ∧
     (st.isHour24Set = some true → ∀ s, parseField ty now st (.AmPm s) = .error .ParseError) := by
   constructor
   · intro h; simp only [parseField, perr, h]; split
@@ -252,7 +253,7 @@ theorem finish_weekday (ty : Ty) (st : St) (dt : NDT) (reads : Nat) (w date : In
 
 /-- If anything other than whitespace is left after the last field, parsing fails – for every type, picture and clock. -/
 theorem leftover_rejected (ty : Ty) (fields : List Field) (input : Bytes) (now : Clock) (st : St)
-    (h1 : parseFields ty now { s := input } fields = .ok st) (h2 : (eatWhitespaces st.s).isEmpty = false) :
+    (h1 : parseFields ty now (initSt ty input) fields = .ok st) (h2 : (eatWhitespaces st.s).isEmpty = false) :
     parse ty fields input now = .error .ParseError := by
   unfold parse
   simp only [h1, bind, Except.bind, h2]
